@@ -64,6 +64,12 @@ func (e *SyncedEnforcer) StartAutoLoadPolicy(d time.Duration) {
 		return
 	}
 
+	// a stop signal that arrived after the previous loader had exited must not stop this one
+	select {
+	case <-e.stopAutoLoad:
+	default:
+	}
+
 	ticker := time.NewTicker(d)
 	go func() {
 		defer func() {
@@ -89,7 +95,12 @@ func (e *SyncedEnforcer) StartAutoLoadPolicy(d time.Duration) {
 // StopAutoLoadPolicy causes the go routine to exit.
 func (e *SyncedEnforcer) StopAutoLoadPolicy() {
 	if e.IsAutoLoadingRunning() {
-		e.stopAutoLoad <- struct{}{}
+		// never block: when several callers get here together only one signal can be
+		// consumed, and a second or third send would wait for a receiver that has already exited
+		select {
+		case e.stopAutoLoad <- struct{}{}:
+		default:
+		}
 	}
 }
 
